@@ -47,6 +47,9 @@ func runC05(c *Ctx) {
 
 	c05KeyInjective(c)
 	c05ReqRespPairing(c)
+	c05ResolvedKindGroup(c)
+	c05VersionLevelTable(c)
+	c05RekeyByIdentity(c)
 
 	t := extractCheckTables(p)
 	for _, e := range t.Errors {
